@@ -541,11 +541,16 @@ def matrix_programs(prefix_of, family='world', chunk=4, avoid=()):
         out.append({'body': body, 'helpers': p.helpers, 'classes': [f'mx:{ctx}:{n}' for n in names], 'systematic': True, 'matrix': (ctx, names)})
         i += 1
     for ctx in ctxs:
-        for k in range(0, len(scal), chunk):
-            mk(ctx, scal[k:k + chunk], 'scalars')
-        normal = [a for a in arrs if a[0] != 'endless']
-        for k in range(0, len(normal), chunk):
-            mk(ctx, normal[k:k + chunk], 'arrays')
+        bounded = [t for t in scal if t != 'SizedCString']      # its u32 length makes the maximum saturate (see the arrays below)
+        for k in range(0, len(bounded), chunk):
+            mk(ctx, bounded[k:k + chunk], 'scalars')
+        if 'SizedCString' in scal:
+            mk(ctx, ['SizedCString', 'u8'], 'scalars')
+        # arrays whose size is bounded (fixed, u8 / u16 counted) apart from the u32-counted ones: a container's bounds are sums, and the
+        # saturated maximum of one unbounded member would hide a wrong bound of its neighbours
+        for group in ([a for a in arrs if a[0] in ('fixed', 'var8', 'var16')], [a for a in arrs if a[0] == 'var32']):
+            for k in range(0, len(group), chunk):
+                mk(ctx, group[k:k + chunk], 'arrays')
     for a in arrs:
         if a[0] == 'endless':
             mk('top', ['u8', a], 'endless')
